@@ -251,13 +251,16 @@ def scratch(prefix="renamify-verif."):
 
 
 def materialize(root, tree):
-    """tree: dict relpath -> ('f', bytes, mode) | ('d', mode) | ('l', target)"""
+    """tree: dict relpath -> ('f', bytes, mode) | ('f', bytes, mode, other_rel) = a second hard link to the file at other_rel
+    (same inode; bytes must be that file's bytes) | ('d', mode) | ('l', target)"""
     for rel in sorted(tree, key=lambda p: (p.count("/"), p)):
         node = tree[rel]
         p = os.path.join(root, rel)
         os.makedirs(os.path.dirname(p), exist_ok=True)
         if node[0] == "d":
             os.makedirs(p, exist_ok=True)
+        elif node[0] == "f" and len(node) > 3:
+            os.link(os.path.join(root, node[3]), p)
         elif node[0] == "f":
             with open(p, "wb") as fh:
                 fh.write(node[1])
